@@ -360,10 +360,16 @@ package sqlittle
 //@   free-requires [pkflags] len(pk) == len(schema.PK) && (forall i int :: 0 <= i && i < len(pk) ==> (pk[i].Desc <==> schema.PK[i].SortOrder == 1))
 //@   implements functype db.RecordCB
 
+// pkColumns (WITHOUT ROWID): positions of the primary-key columns inside an index row; key columns
+// SQLite appends to the index (primary-key columns the index does not name) are appended here too.
 //@ func sqlittle.pkColumns
-//@   props C02 C10
-//@   trusted schema interpretation is specified under C10 (pending)
+//@   props C02 C10 C05
 //@   modifies * -M:S_db_KeyCol -M:S_sqlittle_columnIndex
+//@   requires schema != nil && schema.WithoutRowid && ind != nil
+//@   ensures [len] len(result) == len(schema.PK)
+//@   ensures [nonneg] forall i int :: 0 <= i && i < len(result) ==> result[i] >= 0
+//@   loop 1 invariant len(res) == $i
+//@   loop 1 invariant forall i int :: 0 <= i && i < len(res) ==> res[i] >= 0
 
 // Primary-key selects.
 //@ func sqlittle.pkSelect
